@@ -28,7 +28,9 @@ package utils
 //
 // wfPQ(q): representation invariant container/heap relies on and the five methods maintain:
 // every slot holds a non-nil item whose index field is its slot, hence the items are pairwise distinct.
-//@ ghost func wfPQ(q PriorityQueue) bool = forall k int :: 0 <= k && k < len(q) ==> q[k] != nil && q[k].index == k
+// (quantified over absolute positions i of the backing array with the slot read as trigger, so that the solvers never
+// have to match index arithmetic; slot k of q is elems(q)[off(q)+k])
+//@ ghost func wfPQ(q PriorityQueue) bool = forall i int :: { elems(q)[i] } off(q) <= i && i < off(q) + len(q) ==> elems(q)[i] != nil && as(elems(q)[i], "*Queued").index == i - off(q)
 
 //@ func (PriorityQueue).Len
 //@   safety C18
